@@ -71,19 +71,29 @@ def case_history(cid, rnd, stdlib):
         h["versions"] = ring + h["versions"]
         h["names"] = h["names"] + ["r%d" % j for j in range(k)] + ["s%d" % j for j in range(k)]
         tags.append("import-ring%d" % k)
+    forced = set()
+    if cid % 3 == 1:
+        # a fixture-less conftest whose star import is retargeted (same statement shape, other
+        # module) between two rounds of queries: nothing but the import target changes
+        cf = "/vk%d/pkg/conftest.py" % (cid % 5)
+        a, b = rnd.sample(["helpers", "helpers2"], 2)
+        n0 = len(h["versions"])
+        h["versions"] = h["versions"] + [(cf, "import pytest\nfrom .%s import *\n" % a), (cf, "import pytest\nfrom .%s import *\n" % b)]
+        forced = {n0, n0 + 1}
+        tags.append("edit:retarget-directed")
     for i, (p, text) in enumerate(h["versions"]):
         op = {"op": "analyze", "path": p, "text": text}
         steps.append(op)
         replay.append(op)
         latest[p] = text
-        if rnd.random() < 0.15 and len(latest) > 2:
+        if i not in forced and rnd.random() < 0.15 and len(latest) > 2:
             q = rnd.choice(sorted(latest))
             cl = {"op": "close", "path": q}
             steps.append(cl)
             replay.append(cl)
             tags.append("close")
             latest.pop(q)
-        if i >= 2 and rnd.random() < 0.8:
+        if i in forced or (i >= 2 and rnd.random() < 0.8):
             qs = queries_for(latest, h["names"] + ["f1", "f2"], stdlib, rnd)
             steps.append({"q": "cold", "replay": list(replay), "queries": qs})
             nq += len(qs)
